@@ -110,9 +110,10 @@ ValidateTypedEff(h, dev, good, lz) ==
   [h |-> h, o |-> [outcome |-> IF good THEN "ok" ELSE IF lz THEN "SchemaErrors" ELSE "SchemaError",
                    calls |-> 0, hidden |-> h]]
 
-(* operations that only read: printing, comparing, copying, building strategies, coercing, *)
+(* operations that only read: printing, comparing, copying, building strategies, drawing examples (of a    *)
+(* synthesisable schema SU with a dataframe-level unique=[...]), coercing,                                  *)
 (* and every transforming method (returns a new schema, receiver unchanged)                *)
-Pure == {"repr", "eq", "deepcopy", "pickle", "strategy", "coerce_dtype", "add_columns", "remove_columns",
+Pure == {"repr", "eq", "deepcopy", "pickle", "strategy", "example", "coerce_dtype", "add_columns", "remove_columns",
          "update_column", "rename_columns", "select_columns", "set_index", "reset_index"}
 ReadOnlyEff(h, dev, name) ==
   [h |-> h, o |-> [outcome |-> IF name = "eq" THEN (IF h \cap {"S.rx.name", "S.stats.options", "S.a.coerce"} = {} THEN "equal" ELSE "unequal") ELSE "ok",
